@@ -156,7 +156,7 @@ def execute(plan):
         ref = R.get(k + 1)
         if ref is not None and ref.result is not None and ref.result.nfev > R[k].result.nfev:
             x_ref = np.asarray(ref.result.x, dtype=float)
-            verdict, info, act = compare_restart(problem, cfg, blob, x_ref, k + 1, plan["problem"]["pseed"] + k, stats, ref_act=ref)
+            verdict, info, act = compare_restart(problem, cfg, blob, x_ref, k + 1, plan["problem"]["pseed"] + k, stats, ref_act=ref, ref_searches_before=len(R[k].ls_log))
             stats["or.next_iterate"] += 1
             if verdict == "raised":
                 add("restart.raised", k, {"kind": "one", **info})
@@ -186,7 +186,8 @@ def execute(plan):
             # 1/h ~ 1e8 in the second one: the two-iteration comparison is made with exact gradients only)
             if verdict == "ok" and newest_is_x and cfg["jac"] == "callable" and ref2 is not None and ref2.result is not None and ref2.result.nfev > ref.result.nfev:
                 v2, info2, act2 = compare_restart(
-                    problem, cfg, blob, np.asarray(ref2.result.x, dtype=float), k + 2, plan["problem"]["pseed"] + 7 * k, stats, ref_act=ref2, rel_step_tol=1e-5
+                    problem, cfg, blob, np.asarray(ref2.result.x, dtype=float), k + 2, plan["problem"]["pseed"] + 7 * k, stats, ref_act=ref2, rel_step_tol=1e-5,
+                    ref_searches_before=len(R[k].ls_log),
                 )
                 stats["or.second_iterate"] += 1
                 if v2 == "raised":
@@ -255,7 +256,8 @@ def execute(plan):
             ck2 = snapshot(seg.result)
             if cont.result is not None and cont.result.nfev > seg.result.nfev:
                 verdict, info, act = compare_restart(
-                    problem, cfg, blob2, np.asarray(cont.result.x, dtype=float), k2 + 1, plan["chain_seed"] + k2, stats, ref_act=cont
+                    problem, cfg, blob2, np.asarray(cont.result.x, dtype=float), k2 + 1, plan["chain_seed"] + k2, stats, ref_act=cont,
+                    ref_searches_before=len(seg.ls_log),
                 )
                 stats["or.chain_next_iterate"] += 1
                 if verdict == "raised":
